@@ -104,7 +104,7 @@ def rand_cfg(rng):
     if it == "MATCHED":
         return E.mk_cfg(it, metrics)
     mm = rng.choice(["IOU", "IOU", "DSC", "ASSD"])
-    thr = rng.choice([(1, 10), (1, 4), (1, 2), (1, 2), (3, 4)]) if mm != "ASSD" else rng.choice([(1, 2), (1, 1), (2, 1)])
+    thr = rng.choice([(1, 10), (1, 4), (1, 2), (1, 2), (11, 20), (3, 5), (3, 4)]) if mm != "ASSD" else rng.choice([(1, 2), (1, 1), (2, 1)])
     return E.mk_cfg(it, metrics, matcher=E.naive(mm, thr), backend=rng.choice([None, "cc3d", "scipy"]) if it == "SEMANTIC" else None)
 
 
